@@ -48,6 +48,11 @@ var c09Loops = []struct{ name, script string }{
 	{"loop-with-array-work", `a = 1..50; while (true) { foreach e in a { x = e; } }`},
 	{"loop-with-arithmetic-on-negative-and-float-operands", `a = 0 - 3; b = 2; f = 2.5; while (true) { x = b ** a; y = a ** b; z = b ** b; w = f ** a; u = a % b; q = a / b; p = a * a - b + f; m = (0 - 7) % 3; e = 0 ** a; o = 1 ** a; g = (0 - 1) ** a; }`},
 	{"loop-with-every-kind-of-built-in", `while (true) { s = sprintf("%d %s", 3, "x"); l = len(split("a,b,c", ",")); m = min(1, 2) + max(3, 4); k = keys({"a": 1}); q = sort([3, 1, 2]); r = reverse(q); j = join(r, "-"); i = int("12") + float("1.5"); u = upper(trim(" a ")) + lower("B") + string(3) + type(1.5); b = between(2, 1, 3) && match("abc", "b") && ("x" in ["x"]); h = string(hour(1700000000)) + weekday(0) + string(now() > 0); d = replace("aXb", /x/i, "-"); }`},
+	{"spin-after-a-completed-call", `function inc(x) { return x + 1; } i = inc(0); while (i > 0) { i++; }`},
+	{"spin-in-a-function-after-a-completed-call", `function inc(x) { return x + 1; } function spin() { n = inc(0); while (n > 0) { n++; } } spin(); return 1;`},
+	{"spin-after-a-loop-of-calls", `function inc(x) { return x + 1; } foreach e in [1, 2, 3] { q = inc(e); } while (true) { q = q; }`},
+	{"spin-after-a-failed-call-was-caught-by-nothing", `function two(a, b) { return a; } x = two(1, 2); y = len("abc") + hour(0); for (x) { y = y + 0; }`},
+	{"spin-in-foreach-after-calls", `function inc(x) { return x + 1; } foreach e in [1] { z = inc(e); z = inc(z); while (z) { z = z + 0; } }`},
 	{"loop-with-patterns-built-at-run-time", `n = 0; while (true) { n++; a = match("item-" + string(n), "^item-" + string(n) + "$"); b = ("x" + string(n)) ~= /x[0-9]+/; c = replace("a1b", "[0-9]" + string(n % 7), "-"); d = split("a,b", string(n % 3)); }`},
 	{"loop-with-indexing-and-strings", `s = "héllo wörld"; a = [1, [2, 3], {"k": "v"}]; while (true) { c1 = s[1] + string(s[-1]) + string(s[100]); e = string(a[1][0]) + a[2]["k"] + string(a[9]) + string(a[-1]); t1 = s + s[0]; n = len(s) + len(a); h = {"a": 1, 2: "b", 1.5: [3]}; v1 = h[2] + string(h[1.5]) + string(h["zz"]); }`},
 	{"loop-with-hash-work", `h = {"a":1,"b":2}; while (true) { foreach k, v1 in h { x = v1; } }`},
